@@ -92,7 +92,7 @@ def _get_truncal_chrom_arr(df, truncal_cluster):
     grouped = df.groupby("chrom", sort=False)
     for chrom, group in grouped:
         truncal_dists.extend([chrom] * len(group))
-    truncal_dists = np.array(truncal_dists)
+    truncal_dists = np.sort(np.array(truncal_dists))
     return truncal_dists
 
 
@@ -113,11 +113,11 @@ def _define_truncal_cluster(df):
 
     df = df.loc[df["cluster_id"].isin(potentials_set)]
 
-    grouped = df.groupby("cluster_id", sort=False)
+    grouped = df.groupby("cluster_id", sort=True)
     cluster_prev_dict = dict()
     for cluster, group in grouped:
         # TODO: check mean vs. median here
-        sum_vals = group["cellular_prevalence"].mean()
+        sum_vals = group["cellular_prevalence"].sort_values().mean()
         cluster_prev_dict[cluster] = sum_vals
 
     truncal_cluster = max(cluster_prev_dict.items(), key=itemgetter(1))[0]
@@ -138,7 +138,7 @@ def _get_potential_truncal_clusters(df):
 
 
 def _build_cluster_info_dict(df):
-    grouped = df.groupby("cluster_id", sort=False)
+    grouped = df.groupby("cluster_id", sort=True)
     cluster_info_dict = dict()
     for cluster, group in grouped:
         clust_info_obj = ClusterInfo(
